@@ -12,17 +12,17 @@ PROPERTY = "C57"
 OBS = "logger/_observer.py"
 FIL = "logger/_filter.py"
 BUF = "logger/_buffer.py"
-TECHNIQUE = "CFG path rules + who-may-write + exhaustive finite evaluation of the prefix lookup"
+TECHNIQUE = "CFG path rules, who-may-write, concrete interpretation of filter over short histories"
 EXPLANATION = (
     "LogPublisher.__call__: every observer(event) call-out of the fan-out loop lies in a try whose handler stops Exception "
     "without re-raising and records (observer, Failure()); exactly one call per iteration, the loop walks self._observers "
     "forward and cannot be left early; _observers is only appended to (de-duplicated), removed from or rebuilt from the "
     "constructor arguments; failures are reported only after the fan-out loop, once each, through a publisher built from every "
-    "observer except (identity) the broken one. LogLevelFilterPredicate: logLevelForNamespace is executed by a small concrete "
-    "interpreter over all namespaces of depth 0-4 x all 16 configurations of their prefixes and must return the most specific "
-    "configured prefix (else the default) and terminate; __call__ answers `no` exactly under namespaceLevel - eventLevel >= 1 "
-    "(normalised comparison) with the level looked up for the event's own namespace; set/clear write the table under the given "
-    "key. shouldLogEvent / FilteringLogObserver route yes/no/maybe correctly. LimitedHistoryLogObserver: deque(maxlen=size), "
+    "observer except (identity) the broken one. LogLevelFilterPredicate: the class is interpreted concretely (instance attributes from __init__ carried "
+    "across calls) over every history of length <= 5 of setLogLevelForNamespace / clearLogLevels / logLevelForNamespace on a prefix "
+    "chain of three namespaces and two levels (states de-duplicated); every query must equal the most-specific-configured-prefix "
+    "oracle computed from the configuration history alone and terminate, and in every explored state __call__ must answer `no` "
+    "exactly when eventLevel < that level and `maybe` otherwise; set/clear write the table under the given key. shouldLogEvent / FilteringLogObserver route yes/no/maybe correctly. LimitedHistoryLogObserver: deque(maxlen=size), "
     "append at the right end, forward replay, one call per event. Not decided: observer lists mutated during dispatch, "
     "behaviour of observers themselves."
 )
